@@ -856,6 +856,7 @@ package exec
 //@   uses sem
 //@   ensures fresh(r) && len(r) == nntc(b) && nntc(b) >= 0
 //@   ensures forall i Int :: 0 <= i && i < len(r) ==> fresh(r[i]) && len(r[i]) == 1 && r[i][0] == ntchild(b, i)
+//@   ensures forall i Int :: {ntchild(b, i)} 0 <= i && i < len(r) ==> realNode(ntchild(b, i))
 
 // every registered handler, applied to a node of the nonterminal it is registered for, satisfies the handler
 // contract: discharged per table entry by the obligations exec.execContext/dispatch[NT_x]
@@ -1838,13 +1839,16 @@ package exec
 //@   uses sem
 //@   requires cursor != nil && expr != nil && expr.BSR != nil && wf(expr.BSR)
 //@   requires forall k Int :: 0 <= k && k < len(settings) ==> settings[k] != nil       @options-are-functions
-//@   hint execRecover#1 context.root == cursor && context.contextPosition == 0 && context.contextSize == 1                       @context-node-position-1-size-1
+//@   hint execRecover#1 context.root == root && context.contextPosition == 0 && context.contextSize == 1                         @document-root-position-1-size-1
 //@   hint execRecover#1 aeq(absv(context.result), ASet(qsingle(cursor)))                                                      @starts-from-the-given-node
 //@   ensures err == nil ==> r != nil                                          @never-nil-nil
 //@   ensures err != nil ==> r == nil
 //@   loop 0
 //@     invariant 0 - 1 <= #k && #k < len(settings) || (len(settings) == 0 && #k == 0 - 1)
 //@     decreases len(settings) - #k
+//@   loop 1
+//@     invariant top != nil
+//@     decreases pos(top)
 
 // ---------- string functions (exec/function.go): XPath 1.0 section 4.2 ----------
 // concat, starts-with, contains, substring-before/after and string-length are proved against the specification
@@ -2087,3 +2091,99 @@ package exec
 //@   requires okargs(args)
 //@   ensures (err != nil) == (len(args) != 1)
 //@   ensures err == nil ==> r == VBool(toBool(args[0]))                       @boolean-of-the-argument
+
+// ---------- names resolved through the query's bindings: QNames, variable references (C11) ----------
+
+//@ extern strings.Split(s, sep) (r)
+//@   uses sem
+//@   requires len(sep) > 0
+//@   ensures fresh(r) && len(r) == splitCount(s, sep) && len(r) <= cap(r)
+//@   ensures forall i Int :: {r[i]} 0 <= i && i < len(r) ==> r[i] == splitPiece(s, sep, i)
+
+//@ extern strings.TrimPrefix(s, prefix) (r)
+//@   pure
+//@   uses sem
+//@   ensures r == strimpfx(s, prefix)
+
+//@ func GetQName(input, namespaces) (r, err)
+//@   property C11 C13 C15
+//@   uses sem
+//@   ensures (err != nil) == qnErr(input, namespaces)                         @error-iff-unbound-prefix
+//@   ensures err == nil ==> r == qnOf(input, namespaces)                      @expanded-name-through-the-bindings
+
+//@ func execVariableReference(context, expr) (err)
+//@   property C11 C13 C15
+//@   uses sem
+//@   requires $HPRE$ && nt($B$) == NT_VariableReference
+//@   modifies context.result
+//@   ensures $HPOSTE$                                                         @error-iff-specified
+//@   ensures $HPOSTV$                                                         @value-is-Sem
+
+// ---------- function calls (exec/contextfn.go) ----------
+// A-FN (assumed): a function value - user supplied or builtin - is a deterministic function of the context node-set,
+// the context position and size and the argument values (fnres / fnfails), returns a well-formed XPath value when it
+// does not fail, and writes nothing that was allocated before the call.  For the builtins the frame and the
+// well-formedness are proved by their own contracts; what each builtin computes is stated by its own contract and
+// tied to its name by the obligations exec.builtinFunctions/entry[name].
+//@ extern call.exec.Function(fn, context, args) (r, err)
+//@   uses sem
+//@   requires context != nil && okargs(args)
+//@   ensures (err != nil) == old(fnfails(fn, absv(context.result), context.contextPosition, context.contextSize, absArgs(args)))
+//@   ensures err == nil ==> r != nil && wf(r) && resok(r) && absv(r) == old(fnres(fn, absv(context.result), context.contextPosition, context.contextSize, absArgs(args)))
+
+//@ func gatherFunctionArgs(b, args) ()
+//@   property C08 C11 C13 C15
+//@   uses sem genforest
+//@   requires b != nil && wf(b) && realNode(deref(b)) && args != nil && fargNT(nt(deref(b))) && wf(deref(args)) && len(deref(args)) <= cap(deref(args))
+//@   requires forall i Int :: 0 <= i && i < len(deref(args)) ==> deref(args)[i] != nil && wf(deref(args)[i])
+//@   modifies args, arr(deref(args))
+//@   decreases 3 * bwidth(deref(b)) + fargRank(nt(deref(b)))
+//@   ensures len(deref(args)) == old(len(deref(args))) + fargN(deref(b)) && len(deref(args)) <= cap(deref(args)) && wf(deref(args))
+//@   ensures arr(deref(args)) == old(arr(deref(args))) || fresh(deref(args))
+//@   ensures forall i Int :: 0 <= i && i < old(len(deref(args))) ==> deref(args)[i] == old(deref(args)[i])                     @earlier-arguments-kept
+//@   ensures forall i Int :: 0 <= i && i < fargN(deref(b)) ==> deref(args)[old(len(deref(args))) + i] != nil && wf(deref(args)[old(len(deref(args))) + i]) && deref(deref(args)[old(len(deref(args))) + i]) == fargAt(deref(b), i)    @arguments-appended-in-order
+//@   loop 0
+//@     invariant 0 - 1 <= #k && #k < nntc(deref(b)) && len(children) == #k + 1 && len(children) <= cap(children) && fresh(children)
+//@     invariant forall i Int :: 0 <= i && i <= #k ==> children[i] != nil && fresh(children[i]) && wf(children[i]) && deref(children[i]) == ntchild(deref(b), i)
+//@     invariant deref(args) == old(deref(args)) && (forall i Int :: {deref(args)[i]} 0 <= i && i < len(deref(args)) ==> deref(args)[i] == old(deref(args)[i]))
+//@     decreases nntc(deref(b)) - #k
+//@   loop 1
+//@     invariant 0 - 1 <= #k && #k <= 0 && 0 - 1 <= #outer && #outer + 1 < nntc(deref(b))
+//@     invariant len(children) == #outer + #k + 2 && len(children) <= cap(children) && fresh(children)
+//@     invariant forall i Int :: 0 <= i && i <= #outer + #k + 1 ==> children[i] != nil && fresh(children[i]) && wf(children[i]) && deref(children[i]) == ntchild(deref(b), i)
+//@     invariant forall i Int :: 0 <= i && i <= #outer ==> children[i] != addrof_c
+//@     invariant #k == 0 ==> children[#outer + 1] == addrof_c
+//@     invariant deref(args) == old(deref(args)) && (forall i Int :: {deref(args)[i]} 0 <= i && i < len(deref(args)) ==> deref(args)[i] == old(deref(args)[i]))
+//@     decreases 1 - #k
+
+//@ macro SIG = ntchild($B$, 1)
+//@ macro FCTX = expr.lex, context.root, old(absv(context.result)), old(context.contextPosition), old(context.contextSize), context.ContextSettings
+//@ func execFunctionCall(context, expr) (err)
+//@   property C08 C11 C13 C15
+//@   uses sem genforest
+//@   requires $HPRE$ && nt($B$) == NT_FunctionCall
+//@   modifies context.result
+//@   hintafter gatherFunctionArgs#1 len(deref(addrof_bsrs)) == fargN($SIG$)
+//@   hint call.exec.Function#1 aasame(absArgs(args), semArgs($SIG$, $FCTX$))
+//@   hint execContext#1 deref(nextExpr.BSR) == fargAt($SIG$, #outer + 1) && 0 <= #outer + 1 && #outer + 1 < fargN($SIG$)
+//@   hint execContext#1 absv(addrof_nextContext.result) == old(absv(context.result)) && addrof_nextContext.root == context.root && addrof_nextContext.ContextSettings == context.ContextSettings && addrof_nextContext.contextPosition == old(context.contextPosition) && addrof_nextContext.contextSize == old(context.contextSize) && nextExpr.lex == expr.lex
+//@   hintafter execContext#1 semerr(fargAt($SIG$, #outer + 1), $FCTX$) ==> fargErr($SIG$, $FCTX$)
+//@   hintafter execContext#1 (err != nil) == semerr(fargAt($SIG$, #outer + 1), $FCTX$)
+//@   hint call.exec.Function#1 !fargErr($SIG$, $FCTX$)
+//@   hint call.exec.Function#1 fn == fnLookup(context.ContextSettings, qnOf(btext(ntchild($B$, 0), expr.lex), $NSD$))
+//@   hint call.exec.Function#1 absv(context.result) == old(absv(context.result)) && context.contextPosition == old(context.contextPosition)
+//@   ensures $HPOSTE$                                                         @error-iff-specified
+//@   ensures $HPOSTV$                                                         @value-is-Sem
+//@   loop 0
+//@     invariant $GATHER0$
+//@     decreases nntc($B$) - #k
+//@   loop 1
+//@     invariant $GATHER1$
+//@     decreases 1 - #k
+//@   loop 2
+//@     invariant 0 - 1 <= #k && #k < fargN($SIG$) || (fargN($SIG$) == 0 && #k == 0 - 1)
+//@     invariant $SSTABLE$ && len(children) == 2 && children[0] != nil && wf(children[0]) && deref(children[0]) == ntchild($B$, 0)
+//@     invariant len(bsrs) == fargN($SIG$) && (forall i Int :: {bsrs[i]} 0 <= i && i < fargN($SIG$) ==> bsrs[i] != nil && wf(bsrs[i]) && deref(bsrs[i]) == fargAt($SIG$, i))
+//@     invariant len(args) == #k + 1 && len(args) <= cap(args) && fresh(args)
+//@     invariant forall i Int :: {args[i]} {fargAt($SIG$, i)} 0 <= i && i <= #k ==> args[i] != nil && wf(args[i]) && resok(args[i]) && absv(args[i]) == sem(fargAt($SIG$, i), $FCTX$) && !semerr(fargAt($SIG$, i), $FCTX$)
+//@     decreases fargN($SIG$) - #k
